@@ -501,9 +501,29 @@ def check(ctx):
                    K.show_table(tab), construct='monitors added')
     dw = [f for f in mod.live_functions() if f.name == '_monitor_data_watch']
     ctx.require(dw, '_monitor_data_watch')
-    dsrc = ast.unparse(dw[0].node)
-    ctx.ob('C20.6', dw[0], None,
-           "event.type == 'DELETED'" in dsrc and 'return' in dsrc,
+    # on the outcome "the event is a deletion" (and on "no stat": the node
+    # is gone) the monitor record is not written
+    dgraph = ctx.cfg(dw[0])
+    dnz = N.Normaliser()
+    writes = [n for n in dgraph.nodes if n.kind == 'stmt' and
+              isinstance(n.ast, ast.Assign) and
+              "['monitors']" in N.txt(n.ast.targets[0])]
+    gone = []
+    for test in [n for n in dgraph.nodes if n.kind == 'test']:
+        for edge in test.succ:
+            for atom in dnz.facts_of_edge(edge):
+                key = atom.key
+                if key[0] == 'cmp' and key[1] == '==' and \
+                        "'DELETED'" in [t for t, _c in key[2]]:
+                    gone.append(('deleted', edge))
+                if key[0] == 'is' and key[3] and key[2] == 'None' and \
+                        key[1] == dw[0].params()[1]:
+                    gone.append(('no stat', edge))
+    ok = bool(writes) and {'deleted', 'no stat'} <= set(
+        k for k, _e in gone) and not any(
+            w in K.cut_reach(dgraph, e.dst, follow_exc=False)
+            for _k, e in gone for w in writes)
+    ctx.ob('C20.6', dw[0], None, ok,
            'a deleted monitor stops being reconfigured',
            construct='deleted monitor')
     # ---- C20.7 -----------------------------------------------------------
